@@ -1,0 +1,152 @@
+//! Read-only introspection used by external verification tooling. Only
+//! compiled with the `verif-hooks` feature; with the feature off the crate is
+//! unchanged. Nothing in here calls user code (`Hash`, `Eq`, `MemSize`, ...)
+//! and nothing writes to the cache.
+
+use crate::LruCache;
+
+use std::collections::HashSet;
+
+/// Summary of a successful structural walk, see
+/// [LruCache::verif_structure].
+#[derive(Clone, Debug, PartialEq, Eq)]
+pub struct VerifStructure {
+
+    /// Addresses of the list nodes from least- to most-recently-used.
+    pub addrs: Vec<usize>,
+
+    /// Recorded sizes of the list nodes from least- to most-recently-used.
+    pub sizes: Vec<usize>
+}
+
+impl<K, V, S> LruCache<K, V, S> {
+
+    /// Walks the intrusive list from the least- to the most-recently-used
+    /// entry and checks that it is a simple cycle through the seal whose
+    /// nodes are exactly the live buckets of the table, that `next`/`prev`
+    /// links mirror each other and that the recorded sizes sum up to
+    /// `current_size`. A link is only ever dereferenced if it points to a
+    /// live bucket or the seal, so a dangling link is reported instead of
+    /// read.
+    pub fn verif_structure(&self) -> Result<VerifStructure, String> {
+        let seal = self.seal.addr();
+        let live = unsafe {
+            self.table.iter()
+                .map(|bucket| bucket.as_ptr() as usize)
+                .collect::<HashSet<_>>()
+        };
+        let known = |addr: usize| addr == seal || live.contains(&addr);
+        let mut addrs = Vec::with_capacity(live.len());
+        let mut sizes = Vec::with_capacity(live.len());
+        let mut seen = HashSet::with_capacity(live.len());
+        let mut current = self.seal;
+
+        loop {
+            // `current` is known to be the seal or a live bucket here.
+
+            let prev = current.get().prev;
+            let next = current.get().next;
+
+            if !known(prev.addr()) {
+                return Err(format!(
+                    "node {:#x} (position {} from LRU, 0 = seal) has prev \
+                        link {:#x}, which is neither the seal nor a live \
+                        bucket", current.addr(), addrs.len(), prev.addr()));
+            }
+
+            if !known(next.addr()) {
+                return Err(format!(
+                    "node {:#x} (position {} from LRU, 0 = seal) has next \
+                        link {:#x}, which is neither the seal nor a live \
+                        bucket", current.addr(), addrs.len(), next.addr()));
+            }
+
+            if prev.get().next != current {
+                return Err(format!(
+                    "node {:#x}: prev is {:#x} but prev.next is {:#x}",
+                    current.addr(), prev.addr(), prev.get().next.addr()));
+            }
+
+            if next.get().prev != current {
+                return Err(format!(
+                    "node {:#x}: next is {:#x} but next.prev is {:#x}",
+                    current.addr(), next.addr(), next.get().prev.addr()));
+            }
+
+            current = prev;
+
+            if current == self.seal {
+                break;
+            }
+
+            if !seen.insert(current.addr()) {
+                return Err(format!(
+                    "list revisits node {:#x} before reaching the seal",
+                    current.addr()));
+            }
+
+            if addrs.len() >= live.len() {
+                return Err(format!(
+                    "list has more than the {} nodes the table holds",
+                    live.len()));
+            }
+
+            addrs.push(current.addr());
+            sizes.push(current.get().size);
+        }
+
+        if addrs.len() != self.table.len() {
+            return Err(format!(
+                "list has {} nodes but the table holds {} entries",
+                addrs.len(), self.table.len()));
+        }
+
+        let sum = sizes.iter().fold(0usize, |a, &b| a.wrapping_add(b));
+
+        if sum != self.current_size {
+            return Err(format!(
+                "recorded sizes sum to {} but current_size is {}",
+                sum, self.current_size));
+        }
+
+        Ok(VerifStructure { addrs, sizes })
+    }
+
+    /// A fingerprint of everything the cache stores about its structure:
+    /// the table's identity (data pointer, bucket count, capacity), the
+    /// seal's address and links, `current_size`, `max_size`, and for every
+    /// live bucket in table order its address, links and recorded size. No
+    /// link is dereferenced.
+    pub fn verif_fingerprint(&self) -> Vec<usize> {
+        let mut fingerprint = vec![
+            self.table.data_end().as_ptr() as usize,
+            self.table.buckets(),
+            self.table.capacity(),
+            self.table.len(),
+            self.seal.addr(),
+            self.seal.get().prev.addr(),
+            self.seal.get().next.addr(),
+            self.current_size,
+            self.max_size
+        ];
+
+        unsafe {
+            for bucket in self.table.iter() {
+                let entry = bucket.as_ref();
+
+                fingerprint.push(bucket.as_ptr() as usize);
+                fingerprint.push(entry.prev.addr());
+                fingerprint.push(entry.next.addr());
+                fingerprint.push(entry.size);
+            }
+        }
+
+        fingerprint
+    }
+
+    /// Identity of the table allocation: data pointer and bucket count. It
+    /// changes exactly when the table is rebuilt into a new allocation.
+    pub fn verif_table_identity(&self) -> (usize, usize) {
+        (self.table.data_end().as_ptr() as usize, self.table.buckets())
+    }
+}
